@@ -248,7 +248,9 @@ func main() {
 		genTr("TrStanza", st, stInfo, stPkg, []trFn{{"UnAckQueue", "Peek"}, {"UnAckQueue", "PeekN"}, {"UnAckQueue", "Pop"}, {"UnAckQueue", "PopN"},
 			{"UnAckQueue", "Push"}, {"UnAckQueue", "Empty"}, {"", "isInvalid"}, {"", "isUsernameValid"}, {"", "isDomainValid"}, {"", "NewJid"},
 			{"Jid", "Bare"}, {"Jid", "Full"}}),
-		genTr("TrRoot", root, rootInfo, rootPkg, []trFn{{"", "ensurePort"}}),
+		genTr("TrRoot", root, rootInfo, rootPkg, []trFn{{"", "ensurePort"}, {"", "NewClientTransport"}, {"", "NewComponentTransport"},
+			{"backoff", "setDefault"}, {"backoff", "durationForAttempt"}, {"backoff", "duration"}, {"backoff", "reset"},
+			{"", "isSupportedMech"}, {"", "authSASL"}}),
 	} {
 		if err := g.write(*out); err != nil {
 			fmt.Fprintln(os.Stderr, err)
